@@ -18,7 +18,7 @@ PROOF_NOTE = ("Trusted: Lean 4.33 kernel with axioms {propext, Classical.choice,
 PROPS = {
     "C09": {
         "level": "proof",
-        "text": "Kernel-checked theorems for every label list (= every schedule, number of senders, capacity): mailbox occupancy + reserved permits <= capacity; capacity/default/once-only configuration proved on functions translated from src/lib.rs on every run. The model is validated against the real crate by per-run correspondence (seeded scripts on a paused Tokio runtime) and the occupancy monitor runs on every real trace. Real threads: a spawn_blocking sender's blocking_tell(.., None) calls into a full capacity-1 mailbox all wait and return Ok (stress blocking a2); a cancelled send holds no slot (stress cancel).",
+        "text": "Kernel-checked theorems for every label list (= every schedule, number of senders, capacity): mailbox occupancy + reserved permits <= capacity; capacity/default/once-only configuration proved on functions translated from src/lib.rs on every run. The model is validated against the real crate by per-run correspondence (seeded scripts on a paused Tokio runtime) and the occupancy monitor runs on every real trace. Real threads: a spawn_blocking sender's blocking_tell(.., None) calls into a full capacity-1 mailbox all wait and return Ok (stress blocking a2); a cancelled send holds no slot (stress cancel). Step-level, any state: free_slot_no_wait (a send issued while a slot is free and nobody is queued ahead holds its permit at once) and full_mailbox_waits (otherwise it is queued FIFO: no failure recorded, mailbox untouched).",
         "note": PROOF_NOTE,
         "technique": "Lean 4 invariant proof by induction over label sequences + translated config functions + model/implementation correspondence",
         "monitors": ["C09"],
@@ -54,7 +54,7 @@ PROPS.update({
     },
     "C10": {
         "level": "proof",
-        "text": "Kernel-checked: Err(Timeout) is returned only by operations given a timeout and never before issue instant + timeout (never_early, on the monitor predicate), the timer label is guarded by the deadline, and is_retryable (translated from src/error.rs on every run) is true exactly for Timeout. Exactness on the virtual clock (fires at the deadline, other outcomes not later) is checked on every real trace by C10.exact and by step-by-step correspondence including return instants. Real clock: the reply is produced at once and the runtime thread is then kept busy past the deadline, with the call made from a spawned task and from the runtime's main task (the time driver turns before the caller is polled): the result must be the reply.",
+        "text": "Kernel-checked: Err(Timeout) is returned only by operations given a timeout and never before issue instant + timeout (never_early, on the monitor predicate), the timer label is guarded by the deadline, and is_retryable (translated from src/error.rs on every run) is true exactly for Timeout. Exactness on the virtual clock (fires at the deadline, other outcomes not later) is checked on every real trace by C10.exact and by step-by-step correspondence including return instants. Real clock: the reply is produced at once and the runtime thread is then kept busy past the deadline, with the call made from a spawned task and from the runtime's main task (the time driver turns before the caller is polled): the result must be the reply. New (every schedule): timeout_only_while_pending - the step that yields Err(Timeout) is enabled only while the operation is incomplete (send still queued for a permit on an open mailbox; ask whose reply is neither sent nor lost), so an outcome that is already there is never masked however late the caller is polled (tokio::time::timeout polls the operation before the timer: assumption on Tokio, the wrapper's shape is extracted); timeout_only_from_timer - no other step returns Timeout; send_failure_not_delayed / lost_reply_not_delayed - a closed mailbox or a lost reply is reported as itself at the caller's next poll, whatever the deadline.",
         "note": PROOF_NOTE + " Wall-clock behaviour of the blocking variants is outside the model (see C17).",
         "technique": "Lean 4 invariant proof over label sequences + translated is_retryable + correspondence with virtual-clock return instants",
         "monitors": ["C10"],
